@@ -26,7 +26,88 @@ func (e Engine) Generate(r *lib.Rng, tier string, i int) any {
 		c.SetFailAt = r.Range(1, 3)
 		c.Twice = false
 	}
+	if e.Prop == "C05" && c.Seed%10 == 5 {
+		// C05 only (no shift of the other cases: every case has its own forked generator): 1 case in 10 is a member
+		// of the typed family (typed.go) instead of a forest
+		return &Case{Seed: c.Seed, Typed: GenerateTyped(r)}
+	}
+	if e.Prop == "C06" {
+		// C06 only, drawn last (the cases are otherwise what they were): 8% of the cases with an id give the EMPTY
+		// string as checkpoint id of the first driven run; 4% make the first calls on a fresh compile concurrently
+		// (2-5 callers), two thirds of them with long interrupt lists (20 000 / 100 000 names of no node)
+		if !c.NoID && r.Chance(2, 25) {
+			c.EmptyID = true
+		}
+		// 5%: one or two plain lambdas of Graphs (interrupt-after nodes first) answer with the EMPTY map; direct oracle only
+		if r.Chance(1, 20) {
+			markEmpty(c, r)
+		}
+		if r.Chance(1, 25) && c.SetFailAt == 0 {
+			c.Conc = r.Range(2, 5)
+			switch r.Intn(3) {
+			case 1:
+				c.Pad = 20000
+			case 2:
+				c.Pad = 100000
+			}
+		}
+	}
 	return c
+}
+
+// markEmpty: up to two eligible nodes (see NodeSpec.Empty) get the empty output, interrupt-after nodes first.
+func markEmpty(c *Case, r *lib.Rng) {
+	type pos struct{ gi, ni int }
+	var after, other []pos
+	for gi := range c.Graphs {
+		g := &c.Graphs[gi]
+		if g.Mode == "wf" {
+			continue
+		}
+		for ni, n := range g.Nodes {
+			if n.Sub != 0 || n.Leaf || n.Atom {
+				continue
+			}
+			asked := false
+			for _, m := range g.Nodes {
+				asked = asked || m.InKey == n.ID
+			}
+			if asked {
+				continue
+			}
+			if has(g.After, n.ID) {
+				// twice as likely when something other than END is behind it
+				for _, ed := range g.Edges {
+					if ed.From == n.ID && ed.To != EndID {
+						after = append(after, pos{gi, ni})
+						break
+					}
+				}
+				after = append(after, pos{gi, ni})
+			} else {
+				other = append(other, pos{gi, ni})
+			}
+		}
+	}
+	for k := r.Range(1, 2); k > 0; k-- {
+		pool := &after
+		if len(after) == 0 || len(other) > 0 && r.Chance(1, 4) {
+			pool = &other
+		}
+		if len(*pool) == 0 {
+			return
+		}
+		i := r.Intn(len(*pool))
+		p := (*pool)[i]
+		c.Graphs[p.gi].Nodes[p.ni].Empty = true
+		var rest []pos
+		for _, q := range *pool {
+			if q != p {
+				rest = append(rest, q)
+			}
+		}
+		*pool = rest
+	}
 }
 
 func (e Engine) Decode(raw json.RawMessage) (any, error) {
@@ -50,6 +131,9 @@ func (e Engine) Decode(raw json.RawMessage) (any, error) {
 
 func (e Engine) Run(x any) lib.Result {
 	c := x.(*Case)
+	if c.Typed != nil {
+		return runTyped(c)
+	}
 	if e.Prop != "C06" && c.SetFailAt > 0 {
 		cc := *c
 		cc.SetFailAt = 0
@@ -209,6 +293,41 @@ func tags(c *Case, obs *RunObs) ([]string, bool) {
 	}
 	if c.NoStore {
 		t = append(t, "no-store")
+	}
+	if c.EmptyID {
+		t = append(t, "empty-checkpoint-id")
+	}
+	if c.hasEmpty() {
+		t = append(t, "empty-output-node")
+		for _, g := range c.Graphs {
+			for _, n := range g.Nodes {
+				if n.Empty && has(g.After, n.ID) {
+					t = append(t, "empty-output-node:interrupt-after")
+				}
+			}
+		}
+	}
+	if len(obs.Conc) > 0 {
+		t = append(t, fmt.Sprintf("concurrent-first-calls:%d", c.Conc), fmt.Sprintf("concurrent-first-calls:pad-%d", c.Pad))
+		seen := map[string]bool{}
+		longest := 0
+		for _, sess := range obs.Conc[0] {
+			if len(sess) > longest {
+				longest = len(sess)
+			}
+			if len(sess) > 0 && !seen[sess[0].Class] {
+				seen[sess[0].Class] = true
+				t = append(t, "concurrent-first-calls:"+sess[0].Class)
+			}
+			for _, s := range sess {
+				if s.Class == "hang" {
+					t = append(t, "concurrent-first-calls:watchdog")
+				}
+			}
+		}
+		if longest > 1 {
+			t = append(t, "concurrent-first-calls:resumed-together")
+		}
 	}
 	if c.SetFailAt > 0 {
 		t = append(t, "store-set-fails")
